@@ -856,13 +856,17 @@ impl LdapConnAsync {
                         let protoop = if let Tag::StructureTag(protoop) = tag {
                             protoop
                         } else {
-                            panic!("unmatched tag structure: {:?}", tag);
+                            warn!("unmatched tag structure for search, op={}: {:?}", id, tag);
+                            continue;
                         };
                         let (item, mut remove) = match protoop.id {
                             4 | 25 => (SearchItem::Entry(protoop), false),
-                            5 => (SearchItem::Done(Tag::StructureTag(protoop).into()), true),
+                            5 => (SearchItem::Done(protoop), true),
                             19 => (SearchItem::Referral(protoop), false),
-                            _ => panic!("unrecognized op id: {}", protoop.id),
+                            _ => {
+                                warn!("unexpected op id {} for search, op={}", protoop.id, id);
+                                continue;
+                            }
                         };
                         if let Err(e) = tx.send((item, controls)) {
                             warn!("ldap search item send error, op={}: {:?}", id, e);
